@@ -44,8 +44,130 @@ def size_notes(notes):
     return sorted(small), w2k, ec
 
 
+def parse_report(r, rend):
+    """-> ({host key name: size / CA details / notes}, sorted fingerprint triples) as the report shows them."""
+    got = {}
+    if rend == 'json':
+        doc = json.loads(r.out)
+        for e in doc['key']:
+            got[e['algorithm']] = {'size': e.get('keysize'), 'casize': e.get('casize'), 'ca': e.get('ca_algorithm'), 'notes': e.get('notes', {})}
+        fps = sorted((f['hostkey'], f['hash_alg'], f['hash']) for f in doc['fingerprints'])
+    else:
+        tr = report.TextReport(r.out, verbose=True)
+        for a in tr.algs.get('key', []):
+            sz = a['size'] or ''
+            m1 = re.match(r'^(\d+)-bit$', sz)
+            m2 = re.match(r'^(\d+)-bit cert/(\d+)-bit (.+) CA$', sz)
+            notes = {}
+            for sev, t in a['notes']:
+                notes.setdefault(sev, []).append(t)
+            got[a['name']] = {'size': int(m1.group(1)) if m1 else (int(m2.group(1)) if m2 else None), 'casize': int(m2.group(2)) if m2 else None, 'ca': m2.group(3) if m2 else None, 'notes': notes}
+        fps = sorted((t, h.split(':', 1)[0], h.split(':', 1)[1]) for t, h, _ in tr.fin)
+    return got, fps
+
+
+ALL_CERT_KINDS = RSA_CERTS + [ED_CERT, 'ecdsa-sha2-nistp256-cert-v01@openssh.com', 'ecdsa-sha2-nistp384-cert-v01@openssh.com', 'ecdsa-sha2-nistp521-cert-v01@openssh.com', 'ssh-dss-cert-v01@openssh.com']
+
+
+def eval_certfp(case):
+    """Certificates of every kind the probe knows (also ones whose CA the tool does not decode, and certificates
+    of the user type): fingerprints are listed for the plain keys only."""
+    cspec, _, _ = ca_spec(case['ca'])
+    hostkeys, plain = {}, []
+    for k in case['keys']:
+        if '-cert-' in k:
+            inner = RSA_CERTS[0] if k in RSA_CERTS else k
+            hostkeys[k] = {'t': 'cert', 'kind': inner, 'bits': case.get('bits', 3072), 'ca': cspec, 'cert_type': case.get('cert_type', 2)}
+        else:
+            hostkeys[k] = {'ssh-ed25519': {'t': 'ed25519'}, 'ssh-ed448': {'t': 'ed448'}, 'ecdsa-sha2-nistp256': {'t': 'ecdsa', 'curve': 'nistp256'}}.get(k, {'t': 'rsa', 'bits': 3072})
+            plain.append(k)
+    if any(k in RSA_FAMILY for k in plain):
+        for k in RSA_FAMILY:
+            hostkeys.setdefault(k, {'t': 'rsa', 'bits': 3072})
+    spec = {'kex': ['curve25519-sha256'], 'key': case['keys'], 'hostkeys': hostkeys}
+    want, seen_rsa = [], False
+    for k in plain:
+        name = 'ssh-rsa' if k in RSA_FAMILY else k
+        if name == 'ssh-rsa':
+            if seen_rsa:
+                continue
+            seen_rsa = True
+        sha, md5 = wire.fingerprints(fakenet.blob_from_spec(hostkeys[k]))
+        want += [(name, 'SHA256', sha[7:]), (name, 'MD5', md5[4:])]
+    fails = []
+    for rend in ('json', 'text'):
+        net = fakenet.FakeNet()
+        net.add('h', 22, fakenet.Server(spec))
+        r = drive.run_cli(['-n'] + (['-j'] if rend == 'json' else ['-v']) + ['--skip-rate-test', 'h'], net)
+        if r.exc or r.hang or r.code not in (0, 2, 3):
+            fails.append([drive.crash_sig(r) if r.exc else 'no-report', r.brief()])
+            continue
+        if rend == 'json':
+            fps = sorted((f['hostkey'], f['hash_alg'], f['hash']) for f in json.loads(r.out)['fingerprints'])
+        else:
+            fps = sorted((t, h.split(':', 1)[0], h.split(':', 1)[1]) for t, h, _ in report.TextReport(r.out, verbose=True).fin)
+        cert_fps = [f for f in fps if '-cert-' in f[0]]
+        if cert_fps:
+            fails.append(['fingerprint-listed-for-certificate', '%s keys %r cert type %r: %r' % (rend, case['keys'], case.get('cert_type', 2), cert_fps[:2])])
+        elif fps != sorted(want):
+            fails.append(['fingerprints', '%s: reported %r, expected %r' % (rend, fps, sorted(want))])
+    return mkres(case, nt=True, classes=['certfp', 'cert-type:%d' % case.get('cert_type', 2)] + ['has:' + k.split('-cert-')[0] for k in case['keys'] if '-cert-' in k], fails=fails)
+
+
+def eval_probefail(case):
+    """One advertised key type's probe is never answered (the server closes or goes silent): no blob was presented
+    for it, so nothing may be reported about its size, CA or fingerprint; the other keys are reported from their own blobs."""
+    cspec, ca_type, ca_size = ca_spec(case['ca'])
+    pool = {'ssh-ed25519': ({'t': 'ed25519'}, None, None), 'ssh-ed448': ({'t': 'ed448'}, None, None), 'ecdsa-sha2-nistp256': ({'t': 'ecdsa', 'curve': 'nistp256'}, None, None),
+            ED_CERT: ({'t': 'cert', 'kind': ED_CERT, 'ca': cspec}, 256, (ca_type, ca_size)),
+            RSA_CERTS[0]: ({'t': 'cert', 'kind': RSA_CERTS[0], 'bits': case['bits'], 'ca': cspec}, case['bits'], (ca_type, ca_size))}
+    for k in RSA_FAMILY:
+        pool[k] = ({'t': 'rsa', 'bits': case['rsa_bits']}, case['rsa_bits'], None)
+    keys, failed = case['keys'], case['failed']
+    spec = {'kex': ['curve25519-sha256'], 'key': keys, 'hostkeys': {k: pool[k][0] for k in pool}, 'probe_faults': {failed: case['fault']}}
+    fails = []
+    for rend in ('json', 'text'):
+        net = fakenet.FakeNet()
+        net.add('h', 22, fakenet.Server(spec))
+        r = drive.run_cli(['-n'] + (['-j'] if rend == 'json' else ['-v']) + ['--skip-rate-test', 'h'], net)
+        if r.exc or r.hang or r.code not in (0, 2, 3):
+            fails.append([drive.crash_sig(r) if r.exc else 'no-report', r.brief()])
+            continue
+        got, fps = parse_report(r, rend)
+        g = got.get(failed)
+        if g is None:
+            fails.append(['hostkey-missing-from-report', '%s %s' % (rend, failed)])
+            continue
+        small, w2k, ec = size_notes(g['notes'])
+        if g['casize'] or g['ca'] or small or w2k or ec or (g['size'] and failed not in (ED_CERT,)):
+            fails.append(['details-reported-for-a-key-that-was-never-presented', '%s: keys %r, probe of %s answered with %r, yet the report says %r' % (rend, keys, failed, case['fault'], {kk: v for kk, v in g.items() if kk != 'notes' or (small or w2k or ec)})])
+        if any(f[0] == failed for f in fps):
+            fails.append(['fingerprint-for-a-key-that-was-never-presented', '%s: %s' % (rend, failed)])
+        # the keys that were presented keep their own details
+        for k in keys:
+            if k == failed or (k in RSA_FAMILY and failed in RSA_FAMILY):
+                continue
+            bs, size, ca = pool[k]
+            gk = got.get(k)
+            if gk is None:
+                fails.append(['hostkey-missing-from-report', '%s %s' % (rend, k)])
+                continue
+            if ca is not None and (gk['casize'], gk['ca']) != (ca[1], 'RSA' if (rend == 'text' and ca[0] in RSA_FAMILY) else ca[0]):
+                if not (ca[0] == 'ecdsa-sha2-nistp521' and gk['casize'] == 528):
+                    fails.append(['ca-type', '%s %s next to an unanswered probe: reported %r/%r, signed by %r' % (rend, k, gk['ca'], gk['casize'], ca)])
+            if ca is None and (gk['casize'] or gk['ca']):
+                fails.append(['ca-details-on-plain-key', '%s %s: %r' % (rend, k, gk)])
+            if size is not None and k in RSA_FAMILY + RSA_CERTS[:1] and gk['size'] != size:
+                fails.append(['hostkey-size', '%s %s: reported %r-bit, presented key has %d bits' % (rend, k, gk['size'], size)])
+    return mkres(case, nt=True, classes=['probefail', 'failed:' + failed, 'fault:%s' % (case['fault'] if isinstance(case['fault'], str) else case['fault'][0]), 'pos:%d' % keys.index(failed)], fails=fails)
+
+
 def eval_case(case):
     kind = case['kind']
+    if kind == 'certfp':
+        return eval_certfp(case)
+    if kind == 'probefail':
+        return eval_probefail(case)
     keys = case['keys']
     hostkeys = {}
     truth = {}      # advertised name -> dict(blob, size, ca_type, ca_size, family)
@@ -116,23 +238,7 @@ def eval_case(case):
         if r.exc or r.hang or r.code not in (0, 2, 3):
             fails.append([drive.crash_sig(r) if r.exc else 'no-report', r.brief()])
             continue
-        got = {}
-        if rend == 'json':
-            doc = json.loads(r.out)
-            for e in doc['key']:
-                got[e['algorithm']] = {'size': e.get('keysize'), 'casize': e.get('casize'), 'ca': e.get('ca_algorithm'), 'notes': e.get('notes', {})}
-            fps = sorted((f['hostkey'], f['hash_alg'], f['hash']) for f in doc['fingerprints'])
-        else:
-            tr = report.TextReport(r.out, verbose=True)
-            for a in tr.algs.get('key', []):
-                sz = a['size'] or ''
-                m1 = re.match(r'^(\d+)-bit$', sz)
-                m2 = re.match(r'^(\d+)-bit cert/(\d+)-bit (.+) CA$', sz)
-                notes = {}
-                for sev, t in a['notes']:
-                    notes.setdefault(sev, []).append(t)
-                got[a['name']] = {'size': int(m1.group(1)) if m1 else (int(m2.group(1)) if m2 else None), 'casize': int(m2.group(2)) if m2 else None, 'ca': m2.group(3) if m2 else None, 'notes': notes}
-            fps = sorted((t, h.split(':', 1)[0], h.split(':', 1)[1]) for t, h, _ in tr.fin)
+        got, fps = parse_report(r, rend)
         for k in keys:
             t = truth[k]
             g = got.get(k)
@@ -283,6 +389,25 @@ def run(ctx):
             for bits in (2048, 4096):
                 for keys in ([RSA_CERTS[0], ED_CERT], [ED_CERT, RSA_CERTS[2], 'ssh-ed25519'], [RSA_CERTS[1], RSA_CERTS[0], ED_CERT]):
                     cases.append({'kind': 'twocerts', 'keys': keys, 'bits': bits, 'ca_rsa_cert': a, 'ca_ed_cert': b})
+    pf = []
+    pf_pool = ['ssh-ed25519', 'ssh-ed448', 'ecdsa-sha2-nistp256', ED_CERT, RSA_CERTS[0], 'rsa-sha2-512', 'ssh-rsa']
+    for n in (2, 3):
+        for combo in _it.permutations(pf_pool, n):
+            for failed in combo:
+                if failed in RSA_FAMILY or failed in RSA_CERTS:
+                    continue        # RSA names are retried under the next name of the family: C19's subject
+                i = len(pf)
+                pf.append({'kind': 'probefail', 'keys': list(combo), 'failed': failed, 'fault': ['close', 'stall', 'reset'][i % 3], 'bits': [2048, 1024, 4096][i % 3], 'rsa_bits': [1024, 3072, 2048][(i // 3) % 3],
+                           'ca': [{'t': 'rsa', 'bits': 1024}, {'t': 'ed25519'}, {'t': 'rsa', 'bits': 4096}, {'t': 'ecdsa', 'curve': 'nistp384'}, {'t': 'rsa', 'bits': 2048}][i % 5]})
+    if ctx.quick:
+        ctx.rng.shuffle(pf)
+        pf = pf[:300]
+    cases += pf
+    for ck in ALL_CERT_KINDS:
+        for ct in (2, 1, 0, 3):
+            for ca in ({'t': 'ed25519'}, {'t': 'rsa', 'bits': 3072}, {'t': 'ecdsa', 'curve': 'nistp256'}):
+                for keys in ([ck], [ck, 'ssh-ed25519'], ['ssh-ed25519', ck], ['rsa-sha2-512', ck, 'ssh-rsa']):
+                    cases.append({'kind': 'certfp', 'keys': keys, 'cert_type': ct, 'ca': ca})
     ctx.map(cases)
     ctx.exhaustive = not q
     ctx.note(rsa_size_grid=len(sizes), explanation='exhaustive flag (thorough): the whole size grid 512..16384 step 64 plus every multiple of 8 within 128 bits of 2048 and 3072')
